@@ -69,6 +69,26 @@ ITEMS = [('s', s) for s in STRINGS] + [('n', t, lit) for t, lit in NUMBERS]
 COL_LENGTHS = list(range(244, 256))
 COL_NUMBERS = [b'7', b'42', b'123', b'-1234']
 ALL_ITEMS = ITEMS + [('s', b'c' * n) for n in COL_LENGTHS] + [('n', b'%', lit) for lit in COL_NUMBERS] + [('s', b'tail')]
+TAIL_INDEX = len(ALL_ITEMS) - 1
+# numbers at and next to whole values (a fraction far below single precision, an ordinary one, one half), in each type
+def _near_whole():
+    out = []
+    for w in (1, -3, 100, 123456, 500000, 8388608, 9000000, 9999999, 10000000):
+        for frac in (b'', b'.00000001', b'.001', b'.25', b'.5', b'.99999999'):
+            lit = b'%d%s' % (w, frac)
+            if len(lit.replace(b'-', b'').replace(b'.', b'')) > 16:
+                continue
+            out.append(('n', b'#', lit + b'#'))
+        if abs(w) < 32768:
+            out.append(('n', b'%', b'%d' % w))
+        out.append(('n', b'!', b'%d' % w))
+        if abs(w) < 4000000:
+            out.append(('n', b'!', b'%d.5' % w))
+    return out
+
+
+NEAR_WHOLE = _near_whole()
+ALL_ITEMS = ALL_ITEMS + NEAR_WHOLE
 LINES = [b'', b'a', b'a,b', b' lead', b'trail ', b'q"q', b'"quoted"', b'x' * 254, b'x' * 255]
 
 
@@ -347,8 +367,9 @@ def work_write_input(shard):
     w = Worker(sl)
     try:
         # render all number texts first (also the sanity check of the representation)
-        for it in ALL_ITEMS:
-            if it[0] == 'n':
+        used = set(i for idxs, _s, _c in cases for i in idxs)
+        for ii, it in enumerate(ALL_ITEMS):
+            if it[0] == 'n' and (ii <= TAIL_INDEX or ii in used):
                 text, bad = _numtext(w, it)
                 if bad:
                     part.violation('write/number-representation/%s' % it[1].decode(), bad,
@@ -655,7 +676,7 @@ def legs(ctx):
     base = len(ITEMS)
     longs = list(range(base, base + len(COL_LENGTHS)))
     nums = list(range(base + len(COL_LENGTHS), base + len(COL_LENGTHS) + len(COL_NUMBERS)))
-    tail = len(ALL_ITEMS) - 1
+    tail = TAIL_INDEX
     ccases = []
     for a in longs:
         for n in nums:
@@ -671,6 +692,13 @@ def legs(ctx):
                          'pairs of such strings, written by one WRITE# (items ending at every offset around each multiple '
                          'of 256 characters on the line), x soft_linefeed off/on' % (
                              len(ccases) * 2, COL_LENGTHS[0], COL_LENGTHS[-1])))
+    ncases = [((TAIL_INDEX + 1 + i,), 'one', (1,)) for i in range(len(NEAR_WHOLE))]
+    ncases += [((TAIL_INDEX + 1 + i, TAIL_INDEX), 'one', (2,)) for i in range(len(NEAR_WHOLE))]
+    out.append(Leg('write-numbers', [(sl, ch) for sl in (False, True) for ch in chunked(ncases, 20)], work_write_input,
+                   exhaustive=True,
+                   bound='all %d numbers at and next to 9 whole values (fractions 1E-8, .001, .25, .5, 1-1E-8 as doubles; the whole value '
+                         'in every type that holds it; w+.5 as a single), alone and followed by a string, x soft_linefeed off/on: '
+                         'the text written denotes the value (relative error <= 1E-15 for doubles) and INPUT# reads it back' % len(NEAR_WHOLE)))
     byts = [b for b in range(1, 256) if b not in (0x1a, 0x22)]
     out.append(Leg('write-bytes', [(sl, ch) for sl in (False, True) for ch in chunked(byts, 8)],
                    work_write_bytes, exhaustive=True,
@@ -704,7 +732,7 @@ def replay(ctx, leg, case):
         if 'units' in case:
             run_mixed(part, w, [MIX_UNITS[i] for i in case['units']], case)
             return part
-        if leg == 'write-input':
+        if leg in ('write-input', 'write-column', 'write-numbers'):
             items = [ALL_ITEMS[i] for i in case['items']]
             for it in items:
                 if it[0] == 'n':
